@@ -47,12 +47,14 @@ def check(ctx):
     thr = ctx.fold.get('rgxlib.misc', 'through_regex')
     ctx.attempt(_inc, 'RX-LANG', 'through_regex', F.THROUGH, thr, 'through words (any case)')
     ctx.attempt(emitted_trs_accepted)
+    ctx.attempt(_deduce_on_preprocessed)
     nn = ctx.fold.get('rgxlib.sec', 'no_num_sec_regex')
     ctx.attempt(_inc, 'RX-LANG', 'no_num_sec_regex', F.SEC_WORD, nn, "the word 'Section' / abbreviations / symbol")
     ctx.attempt(_pretty, tw, ms)
     ctx.attempt(_word_tables)
     ctx.attempt(_marker_walk)
     ctx.attempt(common.embedded_case_consistency, modules=('rgxlib.misc', 'rgxlib.sec', 'rgxlib.twprge'))
+    ctx.attempt(common.match_record_roles)
 
 
 def _pretty(ctx, tw, ms):
@@ -112,6 +114,20 @@ def _pretty(ctx, tw, ms):
         keyed = []          # itertools.groupby groups consecutive runs
     runs = 'to_print.append((cur_twprge, cur_group))' in t and 'if t.twprge == cur_twprge' in t \
         and 'cur_group.append(t)' in t and 'cur_group = [t]' in t
+    # the run key is the whole Twp/Rge: a comparison on the township (or the
+    # range) alone merges neighbours that differ in the other half
+    partial = []
+    for n in walk_local(pd.node):
+        if isinstance(n, ast.Compare) and isinstance(n.ops[0], (ast.Eq, ast.NotEq)) and any(g_ is n or any(x is n for x in ast.walk(g_))
+                for g_ in [i_.test for i_ in walk_local(pd.node) if isinstance(i_, ast.If)]):
+            attrs = {x.attr for side in [n.left] + n.comparators for x in ast.walk(side) if isinstance(x, ast.Attribute)}
+            if attrs & {'twp', 'rge', 'twp_num', 'rge_num'} and 'twprge' not in attrs:
+                partial.append(n)
+    if partial:
+        ctx.violation('ORDER', 'pretty_desc starts a new header whenever the Twp/Rge changes',
+                      f"`{norm(partial[0])[:70]}` compares only part of the Twp/Rge: consecutive tracts with the same township "
+                      f"but another range (or vice versa) are printed under one header and read back with the wrong Twp/Rge",
+                      key="ORDER|pretty_desc|partial-key", where=common.loc(pd, partial[0]))
     if keyed:
         ctx.violation('ORDER', 'pretty_desc groups consecutive runs of a Twp/Rge, in list order',
                       f"`{norm(keyed[0])[:60]}`: tracts are regrouped by Twp/Rge key, so a Twp/Rge that recurs "
@@ -119,6 +135,26 @@ def _pretty(ctx, tw, ms):
                       key="ORDER|pretty_desc|runs", where=common.loc(pd, keyed[0]))
     else:
         ctx.shape(runs or 'groupby(' in t, 'ORDER', 'pretty_desc groups consecutive runs of a Twp/Rge, in list order')
+
+
+def _deduce_on_preprocessed(ctx):
+    """PLSSParser deduces the layout from the PREPROCESSED text: spellings the
+    preprocessor completes ('T154-R97' + defaults) are invisible to
+    twprge_regex on the raw text, so deduction there answers copy_all."""
+    pi = ctx.repo.func('PLSSParser.__init__')
+    calls = [c for c in walk_local(pi.node) if isinstance(c, ast.Call) and dotted(c.func) == 'deduce_layout' and c.args]
+    construct = 'PLSSParser deduces the layout from the preprocessed text'
+    if not calls:
+        ctx.undecided('ORDER', construct, 'deduce_layout(...) call not found in PLSSParser.__init__')
+        return
+    for c in calls:
+        pv = flow.provenance(pi.node, c.args[0])
+        pre = any(x.split('.')[-1] in ('PLSSPreprocessor', 'plss_preprocess', 'preprocess') for x in flow.prov_calls(pv))
+        raw = 'text' in flow.prov_params(pv) and not pre
+        ctx.tri(pre, raw, 'ORDER', construct, f"deduce_layout({norm(c.args[0])})",
+                f"`{norm(c)}` looks at the text as given, before PLSSPreprocessor ran: a Twp/Rge that needs the default "
+                f"N/S or E/W (or the OCR scrub) is not seen and the whole description becomes one copy_all tract",
+                key="ORDER|PLSSParser.__init__|deduce-before-preprocess", where=common.loc(pi, c))
 
 
 def emitted_trs_accepted(ctx, rule='PAIR'):
